@@ -275,6 +275,44 @@ def concurrent_pair(sx):
     loop.cancel_all()
 
 
+def reset_from_spa_task(sx):
+    """the automatic reset (a ping answer arriving in an error state) runs inside the spa's own "SPA:" task, which
+    the reset itself cancels; with a client handler that yields, the reset must still complete"""
+    import asyncio
+    from sx.vloop import VLoop
+    from geckolib.spa_state import GeckoSpaState as S
+    from geckolib.spa_events import GeckoSpaEvent as E
+    M = _mod()
+    rec = []
+
+    class Man(M.GeckoAsyncSpaMan):
+        async def handle_event(self, event, **kwargs):
+            rec.append((event, self.spa_state, self.facade))
+            await asyncio.sleep(0)
+
+    man = Man("uuid", spa_identifier="SPA01:02:03:04:05:06", spa_name="My Spa")
+    st = [S.ERROR_PING_MISSED, S.ERROR_RF_FAULT, S.ERROR_NEEDS_ATTENTION][sx.choice("error_state", 3)]
+    man._spa_state = st
+    man._spa = real_spa(man, True)
+    man._facade = FakeFacade()
+    man._status_sensor = M.GeckoAsyncSpaMan.StatusSensor(man)
+    loop = VLoop()
+
+    async def ping_loop_body():
+        # what GeckoAsyncSpa._ping_loop does when a ping is answered
+        await man._spa._event_handler(E.RUNNING_PING_RECEIVED)
+
+    async def main():
+        man.add_task(ping_loop_body(), "Ping loop", "SPA")
+        for _ in range(20):
+            await asyncio.sleep(0)
+    loop.run_until_complete(main(), max_time=10.0)
+    sx.check(man.spa_state == S.IDLE, "lc.reset-lands-in-idle", lambda: man.spa_state.name)
+    sx.check(man.facade is None and man._spa is None and man.spa_descriptors is None, "lc.reset-drops-facade-spa-descriptors",
+             lambda: f"facade={man.facade} spa={man._spa}")
+    loop.cancel_all()
+
+
 def locate(sx):
     from geckolib.spa_state import GeckoSpaState as S
     from geckolib.spa_events import GeckoSpaEvent as E
@@ -326,7 +364,7 @@ def connect(sx):
     rec = []
     man = make_manager(rec)
     depth = sx.choice("chain_depth", len(CHAIN) + 1)
-    ending = sx.choice("ending", 4)          # 0 complete, 1 retry exceeded, 2 cannot find pack, 3 raises
+    ending = sx.choice("ending", 5)          # 0 complete, 1 retry exceeded, 2 cannot find pack, 3 raises, 4 cancelled
     facade_raises = bool(sx.choice("facade_constructor_raises", 2))
     made = []
 
@@ -353,6 +391,9 @@ def connect(sx):
                 await self.handler(E.CONNECTION_CANNOT_FIND_SPA_PACK, pack_module_name="x")
             elif ending == 3:
                 raise OSError("socket error")
+            elif ending == 4:
+                import asyncio
+                raise asyncio.CancelledError()      # the caller's deadline / context exit cancels the connect
 
     class Fac(FakeFacade):
         def __init__(self, spa, taskman):
@@ -366,9 +407,10 @@ def connect(sx):
     M.GeckoAsyncSpa, M.GeckoAsyncFacade = Spa, Fac
     raised = None
     try:
+        import asyncio
         try:
             r = drive(man.async_connect_to_spa(D()))
-        except (OSError, KeyError) as e:
+        except (OSError, KeyError, asyncio.CancelledError) as e:
             raised = e
     finally:
         M.GeckoAsyncSpa, M.GeckoAsyncFacade = sv
@@ -384,7 +426,7 @@ def connect(sx):
     sx.check((man.spa_state == S.CONNECTED) == built, "lc.connected-iff-facade-built", lambda: man.spa_state.name)
     sx.check(names.count(E.CLIENT_FACADE_IS_READY) == (1 if built else 0), "lc.facade-ready-exactly-when-connected-is-entered")
     sx.check(names.count(E.CLIENT_FACADE_TEARDOWN) == 0, "lc.no-teardown-during-connect")
-    sx.check((raised is not None) == (ending == 3 or (completed and facade_raises)), "lc.connect-propagates-failure")
+    sx.check((raised is not None) == (ending in (3, 4) or (completed and facade_raises)), "lc.connect-propagates-failure")
     for (e, s_at, f_at, text) in rec:
         sx.check(text == S.to_string(s_at), "lc.status-text-matches-state-at-every-delivery")
     if built:
@@ -398,5 +440,6 @@ def units(tier):
         yield Unit(f"step.{states()[i].name}", step, presets={"state": i}, max_paths=200000)
         yield Unit(f"reset.{states()[i].name}", reset, presets={"state": i}, max_paths=50000)
     yield Unit("concurrent-pair", concurrent_pair)
+    yield Unit("reset-from-spa-task", reset_from_spa_task)
     yield Unit("locate-bracket", locate)
     yield Unit("connect-bracket", connect)
